@@ -79,6 +79,7 @@ type Gen struct {
 	units      []*gunit
 	sets       []*gset
 	r          *rand.Rand
+	lr         *rand.Rand // layout / emission randomness (varied by C10 variants)
 	opts       GenOpts
 	nameN      int
 	valN       int64
@@ -272,7 +273,14 @@ func (g *Gen) kindAllowed(k string) bool {
 
 // GenProgram generates one well-formed program.
 func GenProgram(id string, r *rand.Rand, opts GenOpts) *Gen {
-	g := &Gen{P: &Program{ID: id, Module: ModulePath, Feat: map[string]string{}}, r: r, opts: opts}
+	return GenProgramLayout(id, r, rand.New(rand.NewSource(r.Int63())), opts)
+}
+
+// GenProgramLayout: nodes and injectors are drawn from r, the grouping into sets,
+// the order of arguments and the placement of sets from lr. The same r with a
+// different lr yields a regrouped / reordered variant of the same program.
+func GenProgramLayout(id string, r, lr *rand.Rand, opts GenOpts) *Gen {
+	g := &Gen{P: &Program{ID: id, Module: ModulePath, Feat: map[string]string{}}, r: r, lr: lr, opts: opts}
 	p := g.P
 	npk := opts.NPkgs
 	if npk < 1 {
@@ -290,8 +298,8 @@ func GenProgram(id string, r *rand.Rand, opts GenOpts) *Gen {
 	for len(g.nodes) < n {
 		g.addNode()
 	}
-	g.layoutSets()
 	g.makeInjectors()
+	g.layoutSets()
 	g.Emit()
 	return g
 }
@@ -587,7 +595,7 @@ func (g *Gen) addNode() {
 
 // layoutSets assigns units to a random forest of sets.
 func (g *Gen) layoutSets() {
-	r := g.r
+	r := g.lr
 	g.sets = nil
 	for _, u := range g.units {
 		u.home = -1
@@ -835,7 +843,7 @@ func (g *Gen) unitRef(ui int, onlyNodes map[int]bool) (Ref, bool) {
 // Emit (re)builds Program.Sets and Program.Injs from the layout.
 func (g *Gen) Emit() {
 	p := g.P
-	r := g.r
+	r := g.lr
 	p.Sets = nil
 	p.Injs = nil
 	// drop FieldsOf items from earlier emits
